@@ -165,12 +165,14 @@ def kh_rules(ctx):
     vh = require_call(ctx, b, 'C07.K1', 'RF-BIND', 'verify_with_history_params',
                       bind(['current_epoch', 'akd_label', 'proof', lambda e: has_leaf(e, 'verification_params')]),
                       'parameter/shape checks run first and their Result is propagated')
-    side = [v['block'] for v in variant_edges(b, lambda x: 'epoch' in show(x) and ('Option' in show(x) or x[0] == 'phi'))]
+    # the only legitimate bypass: the `None` edge of the "previous epoch" option (first update of the list)
+    side = [(v['block'], _targets(v)['None']) for v in variant_edges(b, lambda x: 'epoch' in show(x) and ('Option' in show(x) or x[0] == 'phi'))
+            if 'None' in _targets(v)]
     require_guard(ctx, b, 'C07.K2', 'RF-GUARD',
                   lambda fc: fc[0] == 'rel' and fc[1] == 'lt' and access_path(fc[3]) == UP + '[*].epoch' and has_leaf(fc[2], UP + '[*].epoch')
                   and not any(x[0] in ('bin', 'un', 'call') for x in walk(fc[2])),
                   'reject an update whose epoch is greater than the previous (newer) update\'s epoch', per_iteration=True,
-                  extra_barriers=side)
+                  bypass_edges=side)
     require_call(ctx, b, 'C07.K3', 'RF-BIND', 'verify_single_update_proof',
                  bind(['root_hash', 'vrf_public_key', UP + '[*]', 'akd_label', 'verification_params']),
                  'every update proof is verified', per_iteration=True)
